@@ -330,17 +330,64 @@ class C07(L1Prop):
             ops, g = rand_prefix(rng, rng.randint(6, length), nc, k % 4 == 0, True, True, obs)
             ops += ["reopen"] + [f"reread {c}" for c in range(1, nc + 1)]
             out.append(Case(f"c07-{k}", ops))
+        # a write that fails half way (the second statement of add_version, or the write of a snapshot)
+        # followed by the retry: what was accepted before and what is accepted by the retry is what is read
+        for k in range(sizes(tier, 8, 60)):
+            n = rng.randint(1, 5)
+            ops = ["ensure 1"] + [f"av 1 {'nil' if i == 0 else 'latest:1'} b:1,{i}" for i in range(n)]
+            for j in range(rng.randint(1, 3)):
+                tbl, stmt = rng.choice([("clients", "UPDATE"), ("versions", "INSERT")])
+                ops += [f"sqlfault {tbl} {stmt} 2", f"av 1 latest:1 b:66,{j}", "reread 1", f"av 1 latest:1 b:2,{j}", "reread 1"]
+                if rng.random() < 0.5:
+                    ops += ["sqlfault clients UPDATE 2", "as 1 latest:1 b:9", "reread 1"]
+            ops += ["reopen", "reread 1", "walk 1"]
+            out.append(Case(f"c07-sqlfault-{k}", ops, {"only": "sqlite"}))
+        # through the HTTP entry point with an allow-list naming the client, restarted on the same
+        # store: a stale request after the restart must still be a conflict, nothing is re-created
+        for k in range(sizes(tier, 8, 60)):
+            n = rng.randint(2, 5)
+            ops = ["allow 1,2"] + [f"http POST av hyph={'nil' if i == 0 else 'latest:1'} hyph=1 history b:1,{i}" for i in range(n)]
+            if rng.random() < 0.6:
+                ops.append("http POST as hyph=latest:1 hyph=1 snapshot b:9,9")
+            ops += ["reopen", f"http POST av hyph=ver:1:{rng.randrange(n - 1)} hyph=1 history b:7,7",
+                    "http GET snap - hyph=1 absent e"]
+            ops += [f"http GET gcv hyph={'base:1' if i == 0 else 'ver:1:%d' % (i - 1)} hyph=1 absent e" for i in range(n)]
+            ops += ["http POST av hyph=latest:1 hyph=1 history b:8,8", "http GET gcv hyph=nil hyph=1 absent e"]
+            out.append(Case(f"c07-allow-{k}", ops, {"http": True}, mode="http"))
         return out
     def relevant(self, i, trace):
         o, ri, rm = trace[i]
+        if o.startswith("http "):
+            from .props_http import HOp, HResp
+            if HOp(o).route != "gcv":
+                return False
+            a, b = HResp(ri), HResp(rm)
+            return (a.status, a.xv, a.xp, a.body) != (b.status, b.xv, b.xp, b.body) and 200 in (a.status, b.status)
         if Op(o).kind == "gcv":
             return (found_version(rm) is not None or found_version(ri) is not None) and ri != rm
         return False
     def oracle(self, case, trace, backend):
         fails, rec = [], {}
+        if case.meta.get("http"):
+            from .props_http import HOp, HResp
+            for i, (o, ri, rm) in enumerate(trace):
+                if not o.startswith("http "):
+                    continue
+                h, r = HOp(o), HResp(ri)
+                if h.route == "av" and r.status == 200 and r.xv.isdigit():
+                    if (h.cid, h.seg) in rec:
+                        fails.append(f"op {i}: version {r.xv} was accepted as the child of {h.seg} although {rec[(h.cid, h.seg)][0]} had been accepted as its child before: one of them can no longer be what the child request returns")
+                    rec.setdefault((h.cid, h.seg), (r.xv, h.seg, h.body()))
+                if h.route == "gcv" and (h.cid, h.seg) in rec:
+                    got = (r.xv, r.xp, r.body) if r.status == 200 else None
+                    if got != rec[(h.cid, h.seg)]:
+                        fails.append(f"op {i}: child of {h.seg} for client {h.cid} is now {ri.split(' | ')[0][:70]}, accepted was {rec[(h.cid, h.seg)]}")
+            return fails
         for i, (o, ri, rm) in enumerate(trace):
             op = Op(o)
             if op.kind == "av" and resp_kind(ri) == "added":
+                if (op.c, op.p) in rec:
+                    fails.append(f"op {i}: version {added_id(ri)} was accepted as the child of {op.p} although {rec[(op.c, op.p)][0]} had been accepted as its child before")
                 rec.setdefault((op.c, op.p), (added_id(ri), op.p, op.data))
             if op.kind == "gcv" and (op.c, op.p) in rec:
                 if found_version(ri) != rec[(op.c, op.p)]:
